@@ -65,6 +65,7 @@ class Model:
         self.excluded = False  # entered one of the excluded waits: stop checking
         self.due = 0  # limit faults that became due
         self.resets = 0
+        self.md_arrived = False
 
     def start(self, proc, now):
         self.proc = proc  # "EOF" | "FIN" | "NAK"
@@ -196,8 +197,14 @@ def run_partA(case):
         csum = models.ref_checksum(cfg["crc_type"], content)
         nseg = (size + SEG - 1) // SEG
         missing = set(case.get("missing") or []) if proc == "NAK" else set()
-        pdus = [MetadataPdu(conf(), MetadataParams(bool(case.get("closure")), sim.CSUMS[cfg["crc_type"]], size, "/s/src.bin", str(root / "d.bin")))]
-        pdus += [FileDataPdu(conf(), FileDataParams(content[i * SEG : (i + 1) * SEG], i * SEG)) for i in range(nseg) if i not in missing]
+        md_pdu = lambda: MetadataPdu(conf(), MetadataParams(bool(case.get("closure")), sim.CSUMS[cfg["crc_type"]], size, "/s/src.bin", str(root / "d.bin")))
+        if proc == "NAK" and case.get("md_missing"):
+            # the Metadata PDU was lost: only the EOF arrives; everything has to be re-requested
+            missing = set(range(nseg))
+            pdus = []
+        else:
+            pdus = [md_pdu()]
+            pdus += [FileDataPdu(conf(), FileDataParams(content[i * SEG : (i + 1) * SEG], i * SEG)) for i in range(nseg) if i not in missing]
         pdus += [EofPdu(conf(), csum, size)]
         want = "NAK" if proc == "NAK" else "FIN"
         seen = False
@@ -214,6 +221,9 @@ def run_partA(case):
     h = rig.h
     m = Model(proc, cfg, sim.CLOCK.now, side)
     missing_left = set(case.get("missing") or []) if proc == "NAK" else set()
+    md_pending = [bool(proc == "NAK" and case.get("md_missing"))]
+    if md_pending[0]:
+        missing_left = set(range((size + SEG - 1) // SEG))
     progress_reset = 0
 
     def ack_pdu():
@@ -234,7 +244,7 @@ def run_partA(case):
         pending_before = m.pending_cancel
         m.pending_cancel = None
         was_ended = m.ended
-        if kind in ("tick", "tickack", "tickfd"):
+        if kind in ("tick", "tickack", "tickfd", "tickmd"):
             extra = op[-1] if not isinstance(op, str) else 0
             if not m.ended:
                 sim.CLOCK.now = max(sim.CLOCK.now, m.expiry_time() + extra)
@@ -254,7 +264,10 @@ def run_partA(case):
             if kind in ("ack", "tickack") and m.proc in ("EOF", "FIN"):
                 arrival = "ack"
                 pdu = ack_pdu()
-            elif kind in ("fd", "tickfd") and m.proc == "NAK" and op[1] in missing_left:
+            elif kind in ("md", "tickmd") and m.proc == "NAK" and md_pending[0]:
+                arrival = "md"
+                pdu = md_pdu()
+            elif kind in ("fd", "tickfd") and m.proc == "NAK" and op[1] in missing_left and not md_pending[0]:
                 arrival = ("fd", op[1])
                 pdu = fd_pdu(op[1])
             import copy as _copy
@@ -266,7 +279,10 @@ def run_partA(case):
                         return {"nothing": True, "excluded": True}
                     mm.ended = True
                     return {"nothing": True, "idle": True}
-                ml.discard(arrival[1])
+                if arrival == "md":
+                    mm.md_arrived = True
+                else:
+                    ml.discard(arrival[1])
                 mm.resets += 1
                 if not ml:
                     mm.start("FIN", now)
@@ -335,6 +351,8 @@ def run_partA(case):
             break
         if not m.ended and 'branches' in dir() and branches is not None:
             _, m, missing_left = branches[chosen]
+        if getattr(m, "md_arrived", False):
+            md_pending[0] = False
         exp = alts[chosen]
         if exp.get("cancel"):
             ck, cc = exp["cancel"]
@@ -363,7 +381,9 @@ def run_partA(case):
         classes.append("abandoned-after-cancel")
     if m.resets:
         classes.append("progress-reset")
-    if any((not isinstance(o, str)) and o[0] in ("tickack", "tickfd") for o in case["timeline"]):
+    if case.get("md_missing"):
+        classes.append("metadata-missing")
+    if any((not isinstance(o, str)) and o[0] in ("tickack", "tickfd", "tickmd") for o in case["timeline"]):
         classes.append("tie")
     if m.excluded:
         classes.append("entered-excluded-wait")
@@ -470,6 +490,10 @@ def exhaustive_cases(shard, nshards, tier):
                             if proc == "NAK":
                                 case["missing"] = [1, 2] if j < N else [1]
                             yield case
+                            if proc == "NAK":
+                                # same silence point, but the progress is the lost Metadata PDU arriving
+                                tl2 = [(["md"] if o == ["fd", 1] else (["tickmd", 0] if o == ["tickfd", 1, 0] else o)) for o in tl]
+                                yield {"part": "A", "proc": proc, "cfg": cfg, "size": 3 * SEG, "timeline": tl2, "md_missing": True}
     # part B: every PDU kind silenced from its k-th occurrence on
     silences = [[k, o, "dropall"] for k in ("FD", "EOF", "ACK_EOF", "NAK", "FIN", "ACK_FIN") for o in (0, 1, 2)]
     silences += [["TO_DST", k, "cut"] for k in range(0, 8)] + [["TO_SRC", k, "cut"] for k in range(0, 5)]
@@ -503,10 +527,13 @@ def sampled_case(draw):
     case = {"part": "A", "proc": proc, "cfg": cfg, "size": nseg * SEG - draw(st.integers(0, SEG - 1)), "closure": draw(st.booleans())}
     if proc == "NAK":
         case["missing"] = sorted(draw(st.lists(st.integers(0, nseg - 1), min_size=1, max_size=nseg, unique=True)))
+        if draw(st.integers(0, 2)) == 0:
+            case["md_missing"] = True
     arr = st.one_of(
         st.just(["ack"]), st.tuples(st.just("tickack"), st.integers(0, 3)).map(list),
         st.tuples(st.just("fd"), st.integers(0, nseg - 1)).map(list),
         st.tuples(st.just("tickfd"), st.integers(0, nseg - 1), st.integers(0, 3)).map(list),
+        st.just(["md"]), st.tuples(st.just("tickmd"), st.integers(0, 3)).map(list),
     )
     tick = st.tuples(st.just("tick"), st.sampled_from([0, 0, 1, 1, 300, 5000])).map(list)
     op = st.one_of(tick, tick, tick, tick, st.just("almost"), st.just("idle"), arr)
